@@ -26,6 +26,11 @@ Theorem C02_traversal_exact : forall matches C spec t p,
   Permutation (reported (events matches C spec p t)) (entries matches C spec p t).
 Proof. exact traversal_exact. Qed.
 Print Assumptions C02_traversal_exact.
+(* in a well-formed tree (names within a folder distinct) the specification lists every entry once, so "permutation of
+   entries" means: each non-ignored entry is reported exactly once *)
+Theorem C02_each_entry_once : forall matches C spec t p, wf_tree C t -> NoDup (map fst (entries matches C spec p t)).
+Proof. exact entries_NoDup. Qed.
+Print Assumptions C02_each_entry_once.
 Theorem C02_nothing_ignored : forall matches C spec t p q d,
   In (q, d) (reported (events matches C spec p t)) -> visible matches spec p q.
 Proof. exact reported_visible. Qed.
